@@ -216,6 +216,14 @@ Proof.
 Qed.
 
 (* ------------------------------------------------------------------------------------------------ *)
+(* rank 0 (no dimension): the pass asserts; for rank > 0 `lower` is its body *)
+Lemma lower_some src dst el shape c : lower src dst el shape = Some c -> lower_body src dst el shape = Some c.
+Proof. unfold lower. destruct shape; [discriminate|exact (fun H => H)]. Qed.
+Lemma lower_rank src dst el shape : shape <> [] -> lower src dst el shape = lower_body src dst el shape.
+Proof. unfold lower. destruct shape; [intros H; elim H; reflexivity|reflexivity]. Qed.
+Lemma shape_of_rank l : tstrides l <> [] -> shape_of l <> [].
+Proof. unfold shape_of. destruct (tstrides l); [intros H; elim H; reflexivity|discriminate]. Qed.
+
 Section Main.
   Variables (src dst : layout) (el so do_ : Z).
   Hypothesis Hsrc : layout_ok src.
@@ -252,12 +260,12 @@ Section Main.
   Qed.
 
   (* normal form of the emitted code: its bursts are enumerated by the digit vectors of R *)
-  Theorem lower_bursts : exists code, lower src dst el (shape_of src) = Some code /\
+  Theorem lower_bursts : exists code, lower_body src dst el (shape_of src) = Some code /\
     forall ps pd b, In b (bursts ps pd code []) <->
       exists ds, valid ds R /\
         b = (ps + el * (so + dotS R ds), pd + el * (do_ + dotT R ds), bprod C * el).
   Proof.
-    unfold lower. rewrite Hso, Hdo, (remaining_eq src dst Hetb).
+    unfold lower_body. rewrite Hso, Hdo, (remaining_eq src dst Hetb).
     rewrite (map_opt_loop_of el _ (rem_pair_ok src dst Hsrc Hdst)).
     pose proof shape_prod as Hsp. unfold R, RR in *.
     destruct (sort_desc (rem_list src dst)) as [|h tail] eqn:Es; cbn [map].
@@ -315,7 +323,7 @@ Section Main.
       exists ds, valid ds R /\
         b = (ps + el * (so + dotS R ds), pd + el * (do_ + dotT R ds), bprod C * el).
     Proof.
-      destruct lower_bursts as [code' [E1 H]]. rewrite Hcode in E1. inversion E1; subst code'. apply H.
+      destruct lower_bursts as [code' [E1 H]]. rewrite (lower_some _ _ _ _ _ Hcode) in E1. inversion E1; subst code'. apply H.
     Qed.
 
     Lemma abs_inj d d' : valid d E -> valid d' E -> dotT E d = dotT E d' -> dotS E d = dotS E d'.
